@@ -206,7 +206,7 @@ def replay_case(case):
         if np.shape(g) != raw.shape:
             V.append("PointChargeIntegral.construct_array_contraction(shell %d, shell %d): shape %s, expected %s" % (k1, k2, np.shape(g), raw.shape))
             continue
-        gN = g * nm1[:, :, None, None, None] * nm2[None, None, :, :, None]
+        gN = g * shells[k1].norm_cont[:, :, None, None, None] * shells[k2].norm_cont[None, None, :, :, None]   # the shells' own constants
         rN = raw * nm1[:, :, None, None, None] * nm2[None, None, :, :, None]
         rNabs = rawabs * nm1[:, :, None, None, None] * nm2[None, None, :, :, None]
         d1 = np.sqrt(np.abs(_diag_block(basis[k1], charges, nm1)))   # (M1, L1, N)
